@@ -93,13 +93,18 @@ pub fn eval_fn(
                 symbol_decl.name),
             symbol_decl.span);
 
+        // The body is written in the function's own file: that is
+        // where paths in it (`incbin` and the like) are relative to
+        let mut fn_ctx = (*ctx).clone();
+        fn_ctx.file_handle_ctx = Some(function.body.span().file_handle);
+
         let maybe_result = asm::resolver::eval(
             query.report,
             opts,
             fileserver,
             decls,
             defs,
-            ctx,
+            &fn_ctx,
             &mut args_ctx,
             &function.body);
 
